@@ -23,3 +23,7 @@ package util
 //@ props C10
 //@ abstract-calls .*
 //@ ensures result1 == nil ==> result0 != nil && cronexpr(result0) == cronExp
+// ASSUMED-NOT: the cron library is not assumed to be panic free — (Parser).Parse panics on an expression that is a
+// TZ=/CRON_TZ= prefix without a spec (finding F18), and the expression is client input (C13): the parse runs
+// under a deferred recover
+//@ site call Parse assert [C13] recovers()
